@@ -5,10 +5,12 @@ import (
 	"context"
 	"database/sql"
 	"encoding/json"
+	"errors"
 	"flag"
 	"fmt"
 	"reflect"
 	"strings"
+	"time"
 
 	"github.com/canonical/sqlair"
 	_ "github.com/mattn/go-sqlite3"
@@ -686,6 +688,38 @@ func runSQLite(args []string) {
 				}
 			} else {
 				tx.Rollback()
+			}
+		}
+		// a statement already cached on the DB, then issued through a transaction that is
+		// rolled back (or committed): as with hand-written database/sql, the row is back (or gone)
+		if del, derr := sqlair.Prepare("DELETE FROM t1 WHERE rowid IN ($SIDs[:])", SIDs{}); derr == nil {
+			before, _ := dumpTable(sqldb, "t1", st.cols)
+			var firstID int64
+			if len(before) > 0 && sqldb.QueryRow("SELECT min(rowid) FROM t1").Scan(&firstID) == nil {
+				db.Query(ctx, del, SIDs{-12345}).Run() // (deletes nothing; the statement is now cached)
+				if tx2, berr := db.Begin(ctx, nil); berr == nil {
+					// (one pooled connection: a statement that leaves the transaction would wait
+					// for ever; the deadline turns that into an error)
+					c2, cancel2 := context.WithTimeout(ctx, 2*time.Second)
+					e := tx2.Query(c2, del, SIDs{firstID}).Run()
+					cancel2()
+					commit := cr.Chance(1, 2)
+					if commit {
+						tx2.Commit()
+					} else {
+						tx2.Rollback()
+					}
+					after, _ := dumpTable(sqldb, "t1", st.cols)
+					switch {
+					case errors.Is(e, context.DeadlineExceeded):
+						fail("C17", caseJSON, "a cached statement issued through a transaction did not run on the transaction's connection (it waited for another one)", "")
+					case e == nil && commit && len(after) != len(before)-1:
+						fail("C17", caseJSON, fmt.Sprintf("DELETE through a committed transaction: %d rows before, %d after; hand-written SQL leaves %d", len(before), len(after), len(before)-1), "")
+					case e == nil && !commit && fmt.Sprint(after) != fmt.Sprint(before):
+						fail("C17", caseJSON, fmt.Sprintf("DELETE through a rolled back transaction changed the table: %v vs %v", after, before), "")
+					}
+					dist["tx-cached-delete"]++
+				}
 			}
 		}
 		if len(rep.Samples) < 4 && cr.Chance(1, 15) {
